@@ -5,6 +5,7 @@ from collections import defaultdict
 from dataclasses import dataclass, field
 from typing import TYPE_CHECKING, Optional
 
+from sqlfluff.core.errors import SQLParseError
 from sqlfluff.core.parser import BaseSegment, SourceFix
 from sqlfluff.core.rules.fix import LintFix
 
@@ -331,11 +332,19 @@ def apply_fixes(
         # Otherwise only validate if there's a match_grammar. Otherwise we may get
         # strange results (for example with the BracketedSegment).
         elif hasattr(new_seg, "match_grammar"):
-            validated = new_seg.validate_segment_with_reparse(
-                dialect,
-                max_parse_depth=max_parse_depth,
-                max_parse_nodes=max_parse_nodes,
-            )
+            try:
+                validated = new_seg.validate_segment_with_reparse(
+                    dialect,
+                    max_parse_depth=max_parse_depth,
+                    max_parse_nodes=max_parse_nodes,
+                )
+            except SQLParseError as err:
+                # The edited segment no longer fits the parse node budget, so
+                # we cannot confirm that it is valid.
+                linter_logger.debug(
+                    f"Validation Check Fail for {new_seg}. {err.desc()}"
+                )
+                validated = False
         else:
             # There's nothing to validate against here (e.g. a BracketedSegment),
             # so hand the validation request on to the parent segment.
